@@ -56,7 +56,12 @@ ASSUMPTIONS = [
     "environment values are exercised for scalar options and the range types only; plain list[...] options from CLI and file only",
     "options declared without gallia's Field() carry no config metadata by construction and are exercised for CLI and default only "
     "(whether GALLIA_<NAME> is consulted for them is recorded as a counter, not judged)",
-    "positional arguments cannot be given by name; environment/file values for them are judged like for any other option",
+    "positional arguments are not options: gallia takes them from the command line only (PydanticField.arg_default), so only the "
+    "CLI/default combinations are exercised for them",
+    "a case whose expected effective configuration is refused by a cross-field validator of the command itself (exactly one of "
+    "--data/--data-file, power-cycle needs power-supply, ...) is not a valid configuration and is skipped (counted)",
+    "string options restricted by a validator (--oem: names of installed ECU plugins) take the built-in default from every source "
+    "(trivial for precedence); the rejected text doubles as the invalid value",
     "dict-typed options (init_kwargs, properties of the db virtual ECU) and list[tuple] options are not spelled by the generators",
     "a command whose required options cannot be satisfied by any generated argv is reported as uncovered, not as a violation",
 ]
@@ -189,6 +194,7 @@ class Harness:
         self.reported_forms: set[str] = set()
         self.last_plan: Plan | None = None
         self.base_expected: dict[str, Any] = {}
+        self.reload_culprits: dict[str, str] = {}
 
     # -- one real parse ----------------------------------------------------------------------
     def parse(self, argv: list[str], env: dict[str, str], toml_text: str, allow_full: bool = True) -> Outcome:
@@ -206,6 +212,7 @@ class Harness:
             for k in list(os.environ):
                 if k.startswith("GALLIA_"):
                     del os.environ[k]
+            self.toml_path.parent.mkdir(parents=True, exist_ok=True)
             self.toml_path.write_text(toml_text)
             os.environ["GALLIA_CONFIG"] = str(self.toml_path)
             os.environ.update(env)
@@ -277,7 +284,9 @@ class Harness:
         cands.sort(key=lambda d: mro.index(d.owner) if d.owner in mro else 99)  # the command's own options first
         helpers: list[str | None] = [None] + [d.name for d in cands]
         if self.last_plan is not None:
-            yield Plan(self.last_plan.scheme, self.last_plan.helper if self.last_plan.helper != exclude else None, dict(self.last_plan.forms))
+            yield Plan(self.last_plan.scheme, None, dict(self.last_plan.forms))
+            if self.last_plan.helper is not None and self.last_plan.helper != exclude:
+                yield Plan(self.last_plan.scheme, self.last_plan.helper, dict(self.last_plan.forms))
         for forms in form_sets:
             for helper in helpers[:1]:
                 for sch in schemes:
@@ -319,6 +328,7 @@ class OptionRun:
         self.d = d
         self.rt = h.fields[d.name]
         self.mech = mechanism(d, self.rt)
+        self.tkey = "type:" + d.spec.label.replace("|None", "")
         self.vseed = vseed
         self.rounds = rounds
         self.rng = random.Random(vseed)
@@ -432,7 +442,7 @@ class OptionRun:
             out, argv = last
             if out.kind == "exit" and names_source(out.text.split("error:")[-1], "cli", d) and "required" not in out.text.split("error:")[-1]:
                 self.ctx.violation(
-                    f"cli/valid-value-rejected/{self.mech}", f"a valid command-line value is rejected ({d.spec.label})",
+                    f"cli/valid-value-rejected/{self.tkey}", f"a valid command-line value is rejected ({d.spec.label})",
                     self.witness({"cli"}, argv, {}, "", "<accepted>", out, "plan-search"),
                 )
             else:
@@ -503,7 +513,7 @@ class OptionRun:
         if any(S.same(got, vals[s].expected) for s in lower) or (d.has_default and S.same(got, self.default)):
             ctx.violation(f"precedence/{w}-ignored/{self.mech}", f"the value from {w} should win but another source or the default is effective", wit())
         else:
-            ctx.violation(f"precedence/{w}-wrong-value/{self.mech}", f"the effective value is not the one given by {w}", wit())
+            ctx.violation(f"precedence/{w}-wrong-value/{self.tkey}", f"the effective value is not the one given by {w}", wit())
 
     def reload(self, out: Outcome, wit: Any) -> None:
         if out.kind != "ok":
@@ -521,6 +531,9 @@ class OptionRun:
                     cname = locs[0]
             except Exception:
                 pass
+            ck = f"{type(e).__name__}:{str(e)[:80]}"
+            if cname is None and ck in self.h.reload_culprits:
+                cname = self.h.reload_culprits[ck]
             if cname is None:
                 # which field's stored form is not accepted back?  put the live value in, one field at a time
                 for n in self.h.fields:
@@ -532,7 +545,8 @@ class OptionRun:
                         except Exception:
                             continue
             if cname is not None:
-                culprit = self.h.decls[cname].spec.label
+                culprit = self.h.decls[cname].spec.label.replace("|None", "")
+                self.h.reload_culprits[ck] = cname
             w = wit()
             w["reload_error"] = repr(e)[:500]
             w["reload_field"] = cname
@@ -546,7 +560,7 @@ class OptionRun:
                 w = wit()
                 w["reload_field"] = n
                 w["reload_before_after"] = [repr(a)[:200], repr(b)[:200]]
-                ctx.violation(f"reload/not-equal/{dn.spec.label if dn else '?'}", "the reloaded configuration differs from the parsed one", w)
+                ctx.violation(f"reload/not-equal/{dn.spec.label.replace('|None', '') if dn else '?'}", "the reloaded configuration differs from the parsed one", w)
                 return
 
     # -- the cases ---------------------------------------------------------------------------
@@ -597,6 +611,8 @@ class OptionRun:
         # soft observation: is GALLIA_<NAME> consulted for options without config metadata?
         if d.how != "config-field" and d.spec.env_ok and "cli" in self.sources:
             v = fixed["env"]
+            if d.spec.kind == "bool":
+                v = S.gen_value(d.spec, self.rng, "env", 0 if bool(self.default) else 1)  # type: ignore[assignment]
             argv = h.argv(list(base))
             out = h.parse(argv, {d.env_name: str(v.env)}, "", allow_full=False)
             if out.kind == "ok" and S.same(getattr(out.cfg, d.name, None), v.expected):
@@ -660,7 +676,7 @@ class OptionRun:
                 if any(S.same(got, f) for f in fallback):
                     ctx.violation(f"precedence/{src}-ignored/{self.mech}", f"an invalid value from {src} is silently ignored", wit())
                 else:
-                    ctx.violation(f"invalid/accepted/{src}/{self.mech}", f"an invalid value from {src} is accepted", wit())
+                    ctx.violation(f"invalid/accepted/{src}/{self.tkey}", f"an invalid value from {src} is accepted", wit())
             else:
                 msg = out.text.split("error:")[-1] if "error" in out.text else out.text
                 if names_source(msg, src, d):
